@@ -6,7 +6,9 @@ import (
 	"strings"
 
 	"ionsim/drive"
+	"ionsim/model"
 	"ionsim/prng"
+	"ionsim/render"
 	"ionsim/sim"
 )
 
@@ -92,8 +94,47 @@ func isTrivialProg(p drive.Program) bool {
 func (s navigate) Run(c *Ctx, i int) {
 	r := prng.New(prng.Mix(c.Seed, 8, uint64(i)))
 	doc := genDocBig(r, i%2 == 0, 5, true)
+	var cat *model.Catalog
+	switch {
+	case i%6 == 1:
+		// a history of version markers, local symbol tables with imports, appends and values whose symbols are given by ID,
+		// read with a catalog: what a navigation leaves behind in the symbol context must not depend on the navigation
+		hr := r.Fork()
+		cat, _ = genCatalog(hr.Fork())
+		hbin := (i/6)%2 == 0
+		ex := expectHistory(genHistory(hr.Fork(), cat, hbin), cat)
+		if ex.valid && len(ex.items) > 0 {
+			if hbin {
+				doc = Doc{Format: "binary", Out: render.Binary(ex.items, render.BinOpts{})}
+			} else {
+				doc = Doc{Format: "text", Out: render.Text(ex.items, render.TextOpts{})}
+			}
+			c.Count("docs.symbol-table-history", 1)
+		} else {
+			cat = nil
+		}
+	case i%25 == 3:
+		// a long stream of small records with empty containers and lobs, then nested containers (state a reader keeps over
+		// many skipped values)
+		var vals []*model.Value
+		for k, n := 0, r.Range(130, 260); k < n; k++ {
+			rec := model.NewSeq(model.Struct, model.NewInt(int64(k)).Named(model.T("id")), model.NewSeq(model.Struct).Named(model.T("tags")),
+				model.NewLob(model.Blob, []byte{byte(k), 'h', 'i'}).Named(model.T("data")))
+			if r.Chance(1, 5) {
+				rec.Kids = append(rec.Kids, model.NewSeq(model.List).Named(model.T("more")), model.NewLob(model.Clob, []byte("c}")).Named(model.T("c")))
+			}
+			vals = append(vals, rec)
+		}
+		vals = append(vals, model.NewSeq(model.List, model.NewSeq(model.List, model.NewInt(1)), model.NewInt(2)), model.NewInt(3))
+		if (i/25)%2 == 0 {
+			doc = Doc{Values: vals, Format: "binary", Out: render.Binary(render.Values(vals), render.BinOpts{Auto: true})}
+		} else {
+			doc = Doc{Values: vals, Format: "text", Out: render.Text(render.Values(vals), render.SwarmText(r.Fork()))}
+		}
+		c.Count("docs.record-stream", 1)
+	}
 	data := doc.Out.Bytes
-	base := drive.RunRead(drive.ReadCase{Data: data, Plan: planWhole(), Prog: drive.Full})
+	base := drive.RunRead(drive.ReadCase{KeepSID: true, Data: data, Plan: planWhole(), Prog: drive.Full, Catalog: cat})
 	c.Steps += int64(base.Reads)
 	if base.Panic != "" || base.Spin || base.Err != "" {
 		c.Count("docs.rejected-by-plain-traversal(skipped: C02/C03 matter)", 1)
@@ -130,7 +171,7 @@ func (s navigate) Run(c *Ctx, i int) {
 			plans = append(plans, planBiased(dr, data, doc.Out.Map))
 		}
 		for _, p := range plans {
-			rc := drive.ReadCase{Data: data, Plan: p, Prog: prog}
+			rc := drive.ReadCase{KeepSID: true, Data: data, Plan: p, Prog: prog, Catalog: cat}
 			oc := drive.RunRead(rc)
 			c.Steps += int64(oc.Reads)
 			c.Count("nav.runs", 1)
@@ -212,7 +253,7 @@ func (s navigate) Replay(c *Ctx, caseJSON []byte) error {
 	if err := json.Unmarshal(caseJSON, &cs); err != nil {
 		return err
 	}
-	base := drive.RunRead(drive.ReadCase{Data: cs.Read.Data, Plan: planWhole(), Prog: drive.Full})
+	base := drive.RunRead(drive.ReadCase{KeepSID: true, Data: cs.Read.Data, Plan: planWhole(), Prog: drive.Full, Catalog: cs.Read.Catalog, SimCatalog: cs.Read.SimCatalog})
 	if base.Panic != "" || base.Spin || base.Err != "" {
 		return nil // not a C08 case: the plain traversal rejects the document
 	}
